@@ -33,7 +33,7 @@ Definition eq_flow (a b : list (bool * bool) * nat) : bool :=
   list_eqb (fun x y => Bool.eqb (fst x) (fst y) && Bool.eqb (snd x) (snd y)) (fst a) (fst b) && Nat.eqb (snd a) (snd b).
 """
 
-FAULT_KINDS = ["missing", "error", "wrong_ann", "short", "long", "abort"]
+FAULT_KINDS = ["missing", "error", "wrong_ann", "short", "long", "abort", "half", "half"]
 
 
 def bad_resp(kind, good: sim.Resp):
@@ -47,6 +47,8 @@ def bad_resp(kind, good: sim.Resp):
         return sim.Resp("ok", announced=len(body) + 3, date=date, body=body, chunks=64)
     if kind == "short":
         return sim.Resp("ok", announced=None, date=date, body=body[:-1] if body else b"", chunks=64)
+    if kind == "half":
+        return sim.Resp("ok", announced=None, date=date, body=body[: len(body) // 2], chunks=64)
     if kind == "long":
         return sim.Resp("ok", announced=None, date=date, body=body + b"x", chunks=64)
     if kind == "abort":
